@@ -127,6 +127,14 @@ fcp_parser = Lark(
 )
 
 
+def _error_position(source: str, e: Any) -> Tuple[int, int]:
+    """Line and column of a lark error. An unexpected EOF is located at the end of the source."""
+    if isinstance(e, UnexpectedEOF):
+        lines = source.split("\n")
+        return len(lines), len(lines[-1]) + 1
+    return e.line, e.column
+
+
 def _get_meta(tree: ParseTree, parser: Lark) -> MetaData:
     return MetaData(
         line=tree.meta.line,
@@ -415,11 +423,10 @@ class FcpV2Transformer(Transformer):
             self.error_logger.add_source(filename.name, source)
             fcp_ast = fcp_parser.parse(source)
         except (UnexpectedCharacters, UnexpectedEOF) as e:
+            line, column = _error_position(source, e)
             return error(
                 self.error_logger.log_lark(filename.name, e),
-                Token(
-                    MetaData(e.line, e.line, e.column, e.column, 0, 0, str(filename))
-                ),
+                Token(MetaData(line, line, column, column, 0, 0, str(filename))),
             )
 
         fcp = FcpV2Transformer(
@@ -561,10 +568,11 @@ def _get_fcp(
     logger.add_source(filename.name, source)
     try:
         fcp_ast = fcp_parser.parse(source)
-    except UnexpectedCharacters as e:
+    except (UnexpectedCharacters, UnexpectedEOF) as e:
+        line, column = _error_position(source, e)
         return error(
             logger.log_lark(filename.name, e),
-            Token(MetaData(e.line, e.line, e.column, e.column, 0, 0, str(filename))),
+            Token(MetaData(line, line, column, column, 0, 0, str(filename))),
         )
 
     parser_context = ParserContext()
